@@ -172,7 +172,18 @@ class Models:
         self.froms[("dataclasses", "dataclass")] = Builtin("dataclass", lambda I, a, k: _unsup("dataclass"))
         self.modules["dataclasses"] = ModelModule("dataclasses", {})
         self.modules["abc"] = ModelModule("abc", {"ABC": "ABC"})
-        self.modules["types"] = ModelModule("types", {})
+        def new_class(I, args, kw):
+            import ast as _ast
+
+            from .interp import ClassV
+
+            name = args[0]
+            bases = kw.get("bases", args[1] if len(args) > 1 else ())
+            node = _ast.ClassDef(name=str(name), bases=[], keywords=[], body=[], decorator_list=[])
+            b0 = bases[0]
+            return ClassV(str(name), node, b0.module, list(bases), b0.qualname + "/" + str(name), b0.enclosing)
+
+        self.modules["types"] = ModelModule("types", {"new_class": Builtin("types.new_class", new_class)})
         from . import np_model
 
         np_model.install(self)
@@ -553,8 +564,20 @@ class Models:
             for k, v in pairs.items:
                 d.set(I, k, v)
             return d
-        if hasattr(self, "dict_from_pairs_hook"):
-            return self.dict_from_pairs_hook(I, pairs)
+        if isinstance(pairs, SSeq):
+            from .symtheory import SeqDict
+
+            probe = pairs.at(z3.Int("probe!"))
+            if isinstance(probe, tuple) and len(probe) == 2 and isinstance(probe[0], SOpaque) and isinstance(probe[1], (SReal, SOpaque)):
+                ksort = probe[0].z.sort()
+                vsort = probe[1].z.sort()
+                n = pairs.len_z()
+                key_at = lambda i: pairs.at(i)[0].z
+                val_at = lambda i: pairs.at(i)[1].z
+                # premise of the keyed view: keys pairwise distinct (else later entries win) - made an obligation
+                a, b = I.path.fresh_int("ka"), I.path.fresh_int("kb")
+                I.path.oblige(f"{I.path.ghost.get('site', 'dict')}.dict_keys_distinct", z3.Implies(z3.And(a >= 0, a < n, b >= 0, b < n, a != b), key_at(a) != key_at(b)))
+                return SeqDict(I.path, "sd", n, key_at, val_at, ksort, vsort)
         raise Unsupported("dict from symbolic sequence of pairs")
 
     def floordiv(self, I, a, b):
